@@ -203,3 +203,121 @@ def find_function(tree, name, cls=None, decorator=None):
             if decorator is not None and decorator in decos:
                 return n
     raise TranslationError("function %s%s not found" % (name, " (@%s)" % decorator if decorator else ""))
+
+
+class QUnit(Unit):
+    """Dialect for kernels whose numbers are modelled as exact rationals Q (no int/float typing, no
+    partial operation): expressions are plain Q terms, tests are bool terms, statements thread the state
+    `st` through `let`.  Supported: + - * and unary -, the six comparisons, attribute reads/writes through
+    the class's maps, if/elif/else, return, local assignment, augmented assignment."""
+    QBIN = {ast.Add: "Qplus", ast.Sub: "Qminus", ast.Mult: "Qmult"}
+
+    def expr(self, e, env):
+        if isinstance(e, ast.Name):
+            if e.id in env:
+                return env[e.id]
+            raise TranslationError("unknown name %r" % e.id)
+        if isinstance(e, ast.Constant):
+            if isinstance(e.value, bool) or not isinstance(e.value, int):
+                raise TranslationError("unsupported literal %r" % (e.value,))
+            return "(inject_Z (%d)%%Z)" % e.value
+        if isinstance(e, ast.Attribute):
+            path = attr_path(e)
+            if path in self.reads:
+                return self.reads[path]
+            raise TranslationError("unmapped attribute read %r" % path)
+        if isinstance(e, ast.BinOp):
+            if type(e.op) not in self.QBIN:
+                raise TranslationError("unsupported operator %s" % type(e.op).__name__)
+            return "(%s %s %s)" % (self.QBIN[type(e.op)], self.expr(e.left, env), self.expr(e.right, env))
+        if isinstance(e, ast.UnaryOp) and isinstance(e.op, ast.USub):
+            return "(Qopp %s)" % self.expr(e.operand, env)
+        raise TranslationError("unsupported expression %s" % type(e).__name__)
+
+    def test(self, e, env):
+        if isinstance(e, ast.Compare):
+            if len(e.ops) != 1:
+                raise TranslationError("chained comparison")
+            a, b = self.expr(e.left, env), self.expr(e.comparators[0], env)
+            op = type(e.ops[0])
+            if op is ast.Lt:
+                return "(Qltb %s %s)" % (a, b)
+            if op is ast.Gt:
+                return "(Qltb %s %s)" % (b, a)
+            if op is ast.LtE:
+                return "(Qle_bool %s %s)" % (a, b)
+            if op is ast.GtE:
+                return "(Qle_bool %s %s)" % (b, a)
+            if op is ast.Eq:
+                return "(Qeqb %s %s)" % (a, b)
+            if op is ast.NotEq:
+                return "(negb (Qeqb %s %s))" % (a, b)
+            raise TranslationError("unsupported comparison")
+        if isinstance(e, ast.UnaryOp) and isinstance(e.op, ast.Not):
+            return "(negb %s)" % self.test(e.operand, env)
+        if isinstance(e, ast.BoolOp):
+            op = "andb" if isinstance(e.op, ast.And) else "orb"
+            t = self.test(e.values[-1], env)
+            for v in reversed(e.values[:-1]):
+                t = "(%s %s %s)" % (op, self.test(v, env), t)
+            return t
+        raise TranslationError("unsupported test %s" % type(e).__name__)
+
+    def block(self, stmts, env, kind):
+        if not stmts:
+            if kind == "setter":
+                return "st"
+            raise TranslationError("function may end without returning a value")
+        s, rest = stmts[0], stmts[1:]
+        if isinstance(s, ast.Expr) and isinstance(s.value, ast.Constant) and isinstance(s.value.value, str):
+            return self.block(rest, env, kind)
+        if isinstance(s, ast.Return):
+            if kind == "setter":
+                if s.value is not None:
+                    raise TranslationError("procedure returns a value")
+                return "st"
+            if s.value is None:
+                raise TranslationError("bare return in a value function")
+            return self.expr(s.value, env)
+        if isinstance(s, ast.If):
+            return "(if %s\n   then %s\n   else %s)" % (self.test(s.test, env), self.block(list(s.body) + rest, env, kind),
+                                                        self.block(list(s.orelse) + rest, env, kind))
+        if isinstance(s, ast.Assign):
+            if len(s.targets) != 1:
+                raise TranslationError("multiple assignment targets")
+            t = s.targets[0]
+            if isinstance(t, ast.Name):
+                v = self.fresh("x_" + t.id + "_")
+                env2 = dict(env)
+                env2[t.id] = v
+                return "(let %s := %s in\n   %s)" % (v, self.expr(s.value, env), self.block(rest, env2, kind))
+            if isinstance(t, ast.Attribute):
+                path = attr_path(t)
+                if path not in self.writes:
+                    raise TranslationError("unmapped attribute write %r" % path)
+                return "(let st := %s st %s in\n   %s)" % (self.writes[path], self.expr(s.value, env), self.block(rest, env, kind))
+            raise TranslationError("unsupported assignment target")
+        if isinstance(s, ast.AugAssign):
+            if not isinstance(s.target, ast.Attribute) or type(s.op) not in self.QBIN:
+                raise TranslationError("unsupported augmented assignment")
+            path = attr_path(s.target)
+            if path not in self.writes or path not in self.reads:
+                raise TranslationError("unmapped attribute %r" % path)
+            val = "(%s %s %s)" % (self.QBIN[type(s.op)], self.reads[path], self.expr(s.value, env))
+            return "(let st := %s st %s in\n   %s)" % (self.writes[path], val, self.block(rest, env, kind))
+        if isinstance(s, ast.Pass):
+            return self.block(rest, env, kind)
+        raise TranslationError("unsupported statement %s" % type(s).__name__)
+
+    def function(self, fn, coq_name, kind, uses_state, extra_params=""):
+        args = [a.arg for a in fn.args.args]
+        if fn.args.vararg or fn.args.kwarg or fn.args.kwonlyargs:
+            raise TranslationError("%s: unsupported parameter kinds" % fn.name)
+        if uses_state:
+            if not args or args[0] != "self":
+                raise TranslationError("%s: expected a method" % fn.name)
+            args = args[1:]
+        env = {a: a for a in args}
+        params = extra_params + (" (st : %s) " % self.state_type if uses_state else "") + " ".join("(%s : Q)" % a for a in args)
+        rtype = {"value": "Q", "setter": self.state_type}[kind]
+        return "Definition %s %s : %s :=\n  %s.\n" % (coq_name, params, rtype, self.block(list(fn.body), env, kind))
